@@ -80,6 +80,8 @@ func (s ScannerSpec) KindName() string {
 		return "package"
 	case 'd':
 		return "distribution"
+	case 'f':
+		return "file"
 	default:
 		return "repository"
 	}
@@ -620,6 +622,14 @@ func (s *repoStub) Scan(ctx context.Context, l *claircore.Layer) ([]*claircore.R
 	return out, err
 }
 
+// fileStub is a file scanner that finds nothing; it exists for the state token
+// (kind 'f' is only generated for `state` operations).
+type fileStub struct{ stub }
+
+func (s *fileStub) Scan(ctx context.Context, l *claircore.Layer) ([]claircore.File, error) {
+	return nil, nil
+}
+
 // The same scanners implementing indexer.ConfigurableScanner (suffix C) or
 // indexer.RPCScanner (suffix R). The two interfaces share the method name, so
 // no type can implement both.
@@ -841,8 +851,13 @@ func (w *World) ecosystems(cfg Config) []*indexer.Ecosystem {
 		var ps []indexer.PackageScanner
 		var ds []indexer.DistributionScanner
 		var rs []indexer.RepositoryScanner
+		var fs []indexer.FileScanner
 		for _, s := range cfg {
 			if s.Eco != i {
+				continue
+			}
+			if s.Kind == 'f' {
+				fs = append(fs, &fileStub{stub{w: w, spec: s}})
 				continue
 			}
 			st := stub{w: w, spec: s}
@@ -911,6 +926,9 @@ func (w *World) ecosystems(cfg Config) []*indexer.Ecosystem {
 			},
 			Coalescer: func(context.Context) (indexer.Coalescer, error) { return &stubCoalescer{w: w, idx: i}, nil },
 		}
+		if len(fs) > 0 {
+			ecos[i].FileScanners = func(context.Context) ([]indexer.FileScanner, error) { return fs, nil }
+		}
 	}
 	return ecos
 }
@@ -953,7 +971,7 @@ func KeysOf(cfg Config) []memstore.ScannerKey {
 		}
 	}
 	seen := map[string]bool{}
-	for _, k := range []byte{'p', 'd', 'r'} {
+	for _, k := range []byte{'p', 'd', 'r', 'f'} {
 		for e := 0; e < n; e++ {
 			for _, s := range cfg {
 				if s.Kind == k && s.Eco == e {
